@@ -22,7 +22,8 @@ CLAIMED = {
             "the contact's mutators (only modifiers, the owning types, session.SetInput); per Modifier.Apply a path-sensitive "
             "typestate analysis (mutator results forked true/false, loops unrolled) proving mutated <=> returns true, "
             "mutated => paired change event, no event without mutation; guard/store/event value agreement; the group "
-            "re-evaluation and contact-refresh pairs in the engine. Does not decide that replaying events reproduces "
+            "re-evaluation and contact-refresh pairs in the engine. Also: an Apply that empties a list and rebuilds it confirms every change report by a before/after comparison (reset-and-rebuild); the Contact methods that take a URN compare by Identity() on both sides everywhere and ContactURN.Equal compares the complete raw URN. "
+            "Does not decide that replaying events reproduces "
             "the contact value, nor value-level idempotence (e.g. URN 'set' with an equal list).",
             "who-may-call + path-sensitive typestate dataflow over go/ssa (ESP-style), value-provenance comparison",
             "DESIGN.md §4 C03"),
@@ -33,7 +34,8 @@ CLAIMED = {
             "struct is visible to the reflection walker; waiting exits are collected in a real loop over every exit of every waiting "
             "node without filter or early exit; node enumerators are unfiltered; every action field that reaches "
             "Run.EvaluateTemplate* is tagged engine:evaluated; NewResultSpecs merges every category; every router field that is "
-            "evaluated or can hold dependencies is passed on by its enumerators. Does not relate inspection to actual executions.",
+            "evaluated or can hold dependencies is passed on by its enumerators. Also: the extraction chain from tagged fields to recorded references hands over under loop bounds, type arms, nil tests, EngineField flags and Reference.Variable() only, without leaving a loop early. "
+            "Does not relate inspection to actual executions.",
             "table agreement between sibling implementations (saves vs declares) via SSA provenance, struct-tag audit, control-dependence check",
             "DESIGN.md §4 C20"),
     "C04": ("Structural necessary conditions of totality of expression evaluation, decided over the SSA form of the six evaluation "
@@ -46,7 +48,8 @@ CLAIMED = {
             "every path; each of the 111 computed indexes and slice bounds is shown non-negative and within the length of the value "
             "it indexes on every path (comparison with len of the same or a provably as-long value, range index, length getters, "
             "len-k, min, negative-index normalisation, sort's contract, index parameters forwarded to their call sites) or is one of "
-            "16 listed sites with its reason. Does not decide termination inside libraries for guarded operands, numeric results, "
+            "16 listed sites with its reason. Also: every method invoked on an interface value of type XValue (null is a nil XValue) is on a value produced non-nil or under a nil/IsNil guard (also through parameters of unexported helpers). "
+            "Does not decide termination inside libraries for guarded operands, numeric results, "
             "or the listed sites beyond the stated argument.",
             "guard-dominance (control-dependence) check on partial-call operands, arity-table vs index agreement, path typestate on the arity wrapper",
             "DESIGN.md §4 C04"),
@@ -58,7 +61,8 @@ CLAIMED = {
             "explicit panics, constant and computed indexes (139 sites) - each guarded on every path or listed with its reason; the UUID "
             "of every migrated legacy node and exit is a field of the legacy definition; every legacy action constructor writes a "
             "registered action type, only keys that are json fields of that action's struct and every field it requires; template-path "
-            "wildcards agree between producer and consumer. Does not decide that migrated definitions load (in particular whether a "
+            "wildcards agree between producer and consumer. Also: a required action field with an enumerating validator is written as a constant or defaulted to one on the empty edge at every call site; a truncation guard measures the value it cuts with a bound not above the limit; every slice/map-of-struct-pointers member of a definition struct carries dive,required (null elements are rejected at load). "
+            "Does not decide that migrated definitions load (in particular whether a "
             "required text value can be empty), graph preservation, idempotence as a value-level fact, or equivalence of rewritten templates.",
             "registry/table agreement (AST constants), SSA shape check of migrate(), guard-dominance (control dependence) for nil/length/type tests, interprocedural nullable-map analysis",
             "DESIGN.md §4 C16"),
@@ -67,7 +71,8 @@ CLAIMED = {
             "every nil-error return of the loop/resume/start functions has stored waiting/completed/failed; the waiting pairing "
             "(single site, same block as Run.SetStatus(waiting) on the run owning the new step, under wait!=nil and Begin()); "
             "flow-sensitive (run,step) pairing for every LogEvent/failRun site; event double-entry; path/exit ownership and exit "
-            "provenance; terminal push, failure bubbling and failed-action-stops-node. Does not perform the induction over "
+            "provenance; terminal push, failure bubbling and failed-action-stops-node. Also: the terminal session status is stored only with no active parent left or after all runs were exited; the owners of session.status include unexported helpers only they call. "
+            "Does not perform the induction over "
             "histories (waiting <=> exactly one waiting run, ancestors active, path is a walk for every graph).",
             "who-may-write + forward must-dataflow over go/ssa, variable-pair typestate over go/cfg, path-sensitive typestate",
             "DESIGN.md §4 C01"),
@@ -76,7 +81,8 @@ CLAIMED = {
             "only incremented; exceeding fails the run, no Go error); every path around the engine loop (all 100 enumerated, with "
             "equality facts) spends a step or switches to the parent run; the resume budget test dominates Apply and the loop, and "
             "countWaits' predicate accepts every wait event type; the size choke points (results, names, fields, template text on "
-            "every returning path, quick replies, attachments). Does not decide termination inside actions' services or the "
+            "every returning path, quick replies, attachments). Also: the truncation of a field value's text depends only on the value being non-nil; constant and computed indexes in flows/engine and flows/runs are within range on every path (45 sites, 1 listed with a companion obligation on who writes run.path). "
+            "Does not decide termination inside actions' services or the "
             "library truncation functions.",
             "dominance/guard checks and counter-monotonicity on go/ssa, exhaustive path enumeration of one loop iteration, predicate-vs-table agreement, value provenance to truncation calls",
             "DESIGN.md §4 C05"),
@@ -87,7 +93,8 @@ CLAIMED = {
             "tryToResume fails the session with a nil Go error, and its only rejection sits on the Accepts-false edge; Router()/Wait() "
             "receivers are nil-tested; the Accepts decision "
             "table is evaluated exhaustively over resume type x timeout (total, every type accepted somewhere, no timeout resume "
-            "without a timeout). Does not compare session JSON before/after as an observed fact nor cover faults inside ReadSession.",
+            "without a timeout). Also: the resume limit fails the session (imported from C05 R3); every method invoked on a run's Flow() in engine and runs is under a nil test of the same expression or listed as execution-only. "
+            "Does not compare session JSON before/after as an observed fact nor cover faults inside ReadSession.",
             "path enumeration with interprocedural root-sensitive write-effect summaries (go/ssa + CHA), guard dominance, finite-domain abstract interpretation of Accepts",
             "DESIGN.md §4 C10"),
     "C06": ("Structural necessary conditions of 'query-based group membership matches the contact': an interprocedural, "
@@ -98,7 +105,8 @@ CLAIMED = {
             "implementation; nil-ness of the trigger parameter is propagated; writes to freshly read contacts are ignored); the "
             "non-active-contact clauses of ReevaluateGroups/CheckQueryBasedMembership; every query group is re-checked, a matching "
             "group is added and a non-matching one removed; both call sites report changes and skip the event only when both lists "
-            "are empty. Does "
+            "are empty. Also: the evaluator's tables the group queries run through are obligations here too (imported from C15 R1 R2). "
+            "Does "
             "not decide that the evaluator's answer is right (C15) nor asset loading.",
             "interprocedural dirty/clean dataflow over go/ssa with CHA dispatch and object-root sensitivity, guard dominance",
             "DESIGN.md §4 C06"),
@@ -109,7 +117,8 @@ CLAIMED = {
             "(no case matched && default set) and re-derives the match from the operand text; RouteTimeout uses the timeout "
             "category; matchCase walks cases forward, returns only on this case's truthy result with this case's category and "
             "continues after an erroring test; an empty exit fails the run; the random index derives only from the draw and "
-            "len(categories); Results.Save always stores. Does not decide what each test function matches.",
+            "len(categories); Results.Save always stores. Also: the engine's choice of RouteTimeout traces through parameters and every call site only to a type test of the resume parameter or the constant false, never to session state; case arguments and category names use the documented language fallback (imported from C18 R1 R2). "
+            "Does not decide what each test function matches.",
             "SSA value-provenance and guard-dominance checks on the router functions",
             "DESIGN.md §4 C07"),
     "C09": ("Structural necessary conditions of race-free concurrent sessions over shared assets: the set of shared struct types "
@@ -118,7 +127,8 @@ CLAIMED = {
             "empty interprocedural write summary for those types through non-fresh objects, including appends into re-slices of "
             "shared slices and deletes; package-level variables are written only from init chains; every flow-cache access is "
             "under the mutex with no reachable explicit unlock; package-level XObject/XArray values are constructed eagerly; "
-            "localizable-text writers run only on a copy(). Does not observe races, and does not cover third-party packages or "
+            "localizable-text writers run only on a copy(). Also: an append to an uncopied slice of a shared object counts as a shared write; no pointer member of a JSON decode target aliases a package-level variable. "
+            "Does not observe races, and does not cover third-party packages or "
             "the host's asset source.",
             "type-closure of shared state + interprocedural root-sensitive write-effect summaries (go/ssa + CHA), lock-region dominance",
             "DESIGN.md §4 C09"),
@@ -128,7 +138,8 @@ CLAIMED = {
             "envelope fields is both written and read; the transient parent run is re-derived (prepareForSprint dominates the flow "
             "call in start and Resume, and parentRun has no other accessor); in the 7 type registries (triggers, resumes, inputs, "
             "events, modifiers, waits, hints; 69 struct types) the name a struct is registered under for reading is the type-name "
-            "constant its constructors write. Does not decide that a restored session behaves "
+            "constant its constructors write. Also: event fields the reader requires get a guarded non-empty value; environments (envs) are covered like the other persisted types. "
+            "Does not decide that a restored session behaves "
             "identically (value-level), nor that re-derived values equal the live ones.",
             "marshal/read field-coverage and envelope symmetry (sibling-table agreement over go/ssa field accesses), dominance",
             "DESIGN.md §4 C02"),
@@ -138,7 +149,8 @@ CLAIMED = {
             "withoutQuery and Contact.Format (and any environment-aware string formatter of the flows packages) return URN-derived "
             "text only on the edge dominated by the non-redacting policy test; every construction of a URN-typed query condition, the "
             "urn attribute and the bare-number tel rewrite are guarded by a policy test; the positive direction keeps scheme, path and "
-            "display. Does not decide non-interference for values that enter the context as plain data.",
+            "display. Also: session.MergedEnvironment builds its wrapper on every call (or every writer of session.env resets the cache), so the policy in force is the session's current one. "
+            "Does not decide non-interference for values that enter the context as plain data.",
             "intraprocedural API-aware taint analysis over go/ssa, guard (edge-dominance) checks",
             "DESIGN.md §4 C19"),
     "C18": ("Structural necessary conditions of the documented language fallback: getLanguages appends contact-allowed language, "
@@ -148,7 +160,8 @@ CLAIMED = {
             "the lookup treats a translation consisting of one empty string as missing; "
             "localization keys agree both ways between engine:localized tags (16 fields) and the 12 runtime lookups; evaluateMessage "
             "uses three independent lookups and the text -> attachments -> quick replies language choice; send_msg locales derive "
-            "from the language actually used. Does not enumerate the outcomes of all configurations.",
+            "from the language actually used. Also: an IVR message's locale is the language of the very lookup whose text is the message content. "
+            "Does not enumerate the outcomes of all configurations.",
             "SSA shape/provenance checks of the fallback functions, struct-tag vs call-site table agreement",
             "DESIGN.md §4 C18"),
     "C15": ("Finite-domain abstract interpretation of the contact-query evaluator (exhaustive over the abstract domains): "
@@ -169,7 +182,8 @@ CLAIMED = {
             "grammar and determinised over {quote, backslash, other}, is checked for termination ambiguity and for accepting every "
             "strconv.Quote image; operator constants are COMPARATOR literals; the printer uses the node's own operator, always "
             "parenthesises combinations; writer prefixes pair with reader arms; every type switch over QueryNode covers both node "
-            "types and Simplify keeps every child, flattening only same-operator children. Does not decide structural identity of re-parsed "
+            "types and Simplify keeps every child, flattening only same-operator children. Also: the text ParseQuery hands to the lexer derives from its parameter through listed calls only (TrimSpace, the whole-text phone number rewrite). "
+            "Does not decide structural identity of re-parsed "
             "queries for all inputs.",
             "value provenance over go/ssa, regular-language (NFA->DFA) reasoning on the grammar's lexer rule, constant-pattern analysis, table agreement",
             "DESIGN.md §4 C14"),
@@ -182,7 +196,8 @@ CLAIMED = {
             "where a reference reading of the grammar ends; scanBody's reaction to '@' + {'(', '@', name, end, other} x unescape is "
             "evaluated per case against the documented behaviour; scanIdentifier returns the scanned text unmodified and IDENTIFIER "
             "only behind the lower-cased allowed-top-level test, and gives a disallowed name back with its '@'; TextLiteral.String is strconv.Quote of the full native value and "
-            "the reader strconv.Unquote. Does not decide the whole-string round trip for all UTF-8.",
+            "the reader strconv.Unquote. Also: raw template parameters (those that reach NewXScanner) are otherwise only trimmed, measured, compared or passed on, so literal text reaches a result only as the scanner's BODY token. "
+            "Does not decide the whole-string round trip for all UTF-8.",
             "finite-domain abstract interpretation of the scanner (path typestate engine over go/ssa), NFA->DFA reasoning on the grammar rule, provenance",
             "DESIGN.md §4 C12"),
     "C11": ("Structural necessary conditions of meaning-preserving print/re-parse: a four-way agreement table for the 13 operators "
@@ -192,7 +207,8 @@ CLAIMED = {
             "explicit nodes printed with both brackets; text literals are strconv.Quote of the full value / strconv.Unquote, numbers "
             "print the decimal's String; refactor.Template copies body text, scans without unescaping, re-wraps inversely to the "
             "scanner, keeps the original unless the transformer reports a change; ContextRefRename's changed flag is monotone and "
-            "the rename guarded. Does not decide equality of evaluation results.",
+            "the rename guarded. Also: identifier text (Name, Lookup, Args) reaches the printed string only through formatting calls, the one listed normalisation (lower-casing a context reference) being backed by a who-may-write rule on Scope.get (XObject.Get and functions.Lookup, both shown to compare lower-cased names). "
+            "Does not decide equality of evaluation results.",
             "sibling-table agreement across grammar text, AST doc tags and go/ssa provenance; shape checks of printers and refactor plumbing",
             "DESIGN.md §4 C11"),
     "C17": ("Structural necessary conditions of meaning-preserving migration, decided on symbolic string templates computed from go/ssa: "
@@ -202,7 +218,8 @@ CLAIMED = {
             "method's own operator; a legacy call migrated to an operator expression is returned bare only to bracketing parents; the "
             "operator alternatives of Excellent1.g4 and Excellent3.g4 have the same precedence order and each visitor method emits the "
             "Excellent3 literal of the token it tested; no (value, error) call has its error discarded unless the callee never fails; "
-            "hand-built text literals escape quote and backslash; body text is copied. Does not decide that renamed functions compute "
+            "hand-built text literals escape quote and backslash; body text is copied. Also: a migrated child expression is substituted whole, never sliced or textually edited. "
+            "Does not decide that renamed functions compute "
             "the same values, nor argument order inside explicit-index templates.",
             "abstract interpretation of string-building code (templates with holes and path guards) + grammar/table agreement + guard evidence on dominating branches",
             "DESIGN.md §4 C17"),
@@ -213,7 +230,8 @@ CLAIMED = {
             "fraction digits reach the nanoseconds through integers only; ISO layouts are tried first; Sprintf-then-time.Parse component "
             "widths agree; decimalRegexp accepts every decimal.String rendering (automata inclusion); the JSON type switch covers the six "
             "value types with the matching X types and no gate narrower than the JSON number grammar; decimals marshal unquoted; every "
-            "XValue has MarshalJSON; = and != are ToXText + string (in)equality. Does not decide the library arithmetic, DST folds, "
+            "XValue has MarshalJSON; = and != are ToXText + string (in)equality. Also: any arithmetic on a parsed year is controlled by the length of the year text (true for 2 characters, false for 4). "
+            "Does not decide the library arithmetic, DST folds, "
             "second-granular UTC offsets or non-am/pm locales.",
             "writer/reader table agreement by constant evaluation of the source's own patterns and layouts; regular-language inclusion; finite-domain evaluation of an SSA fragment; go/ssa provenance",
             "DESIGN.md §4 C13"),
